@@ -15,7 +15,7 @@ From SCC Require Sem.AxCheck.
 From SCC Require Import Model.Check Model.Fun2Core Model.Backend Model.Focus Model.FocusCheck Model.Shrink
      Model.Linearize Model.LinCheck Model.Capacity Model.WtDefs Model.X86 Model.A64 Model.RV.
 From SCC Require Import Proof.SubstGraph Proof.CodegenTotal Proof.CodegenX86 Proof.CodegenA64 Proof.CodegenRV
-     Proof.AxToLin Proof.LinearizeProof Proof.ShrinkProof Proof.WtPreserve Proof.FocusExamples Proof.WtExamples.
+     Proof.AxToLin Proof.LinearizeProof Proof.ShrinkProof Proof.ShrinkSem Proof.ShrinkTyping Proof.WtPreserve Proof.FocusExamples Proof.WtExamples.
 Import ListNotations.
 
 (* ======================================================================================== *)
@@ -107,6 +107,21 @@ Print Assumptions C12_focus_total_on_typed.
 Theorem C12_shrink_total_on_typed : forall f, wt_fs f = true -> exists a, shrink_prog f = SOk a.
 Proof. exact shrink_total. Qed.
 Print Assumptions C12_shrink_total_on_typed.
+
+(* shrink_preserves_typing, second half, PROVED FOR A FRAGMENT: the first-order integer fragment of
+   C04's semantic theorem ([frag_prog]: <n | mu~x.s>, <a op b | mu~x.s>, ifc, print, exit, calls with
+   integer producer arguments, integer producer parameters) with definition names of id 0 (what
+   fun2core emits; a name lift_.._k with k <> 0 is treated as a lifted definition by wt_ax).
+   GAP to the full statement: every construct that involves a consumer - continuations at i64
+   (_Cont/Ret), renaming cuts, data and codata (let/switch/create/invoke, known cuts), eta expansion of
+   unknown cuts and critical pairs, lifted statements - and the conclusion binders_ok (global
+   distinctness of binders; the input only has path uniqueness). *)
+Theorem C12_shrink_preserves_typing_partial : forall f a,
+  frag_prog f = true -> names_plain f = true -> wt_fs f = true -> unique_binders f = true ->
+  shrink_prog f = SOk a ->
+  AxCheck.check_prog a = None /\ pre_linear_prog a = true.
+Proof. exact shrink_preserves_typing_frag. Qed.
+Print Assumptions C12_shrink_preserves_typing_partial.
 
 (* The checker run on the output of shrinking against the hypothesis of the linearization theorem:
    wt_ax implies the typing part of prog_ok; what prog_ok demands in addition is exactly
